@@ -11,9 +11,13 @@ for d in sorted(glob.glob("/verif/seeded/*/")):
     first=" / ".join(m.get("checks_run",[]))
     latest=m.get("latest_check","")
     def verdict(t):
+        if "Aborting shrinking" in t and "VIOLATION" not in t:
+            # (the first line kept of that run was proptest's notice that shrinking of the failure was cut off)
+            return "caught"
         if "VIOLATION" in t: 
             sig=re.search(r"signature: (.*?)(  |$)", t)
             return "caught" + (f" (`{sig.group(1).strip()[:70]}`)" if sig else "")
+
         if t.startswith("OK") or "=> OK" in t: return "MISSED"
         return t[:40] or "?"
     last = verdict(latest) if latest else ''
